@@ -36,12 +36,12 @@ PROPS = {
     "C03": {
         "module": "BiscuitModel.Props.C03",
         "streams": ["atten"],
-        "level_text": "Lean 4 theorems over the inductive derivability relation of C05 (which the engine computes exactly, run_exact): derives_mono (a block never removes a fact), derives_restrict (every pair derivable with the new block whose origin avoids it was derivable without it: base facts of the block carry its id, its rules stamp its id, old rules cannot see it), visible_facts_unchanged (for every trusted set not containing the new block the visible world is identical), old_scopes_exclude_new (no scope of an earlier block or of the authorizer reaches a newly appended block unless it names a key registered for it; previous stops at the element's own block). Together with C04's check/policy theorems (verdicts are functions of the visible facts) this is the attenuation argument; the end-to-end corollary over the executable authorize is listed as an open obligation. Tie: every generated (token, appended block, authorizer) is authorized with and without the block on the implementation and on the compiled model, full outcomes compared; and an implementation-only oracle checks the property itself (accepted extended => accepted original by the same policy; failed checks only grow) on every case where nobody names the new block's key.",
-        "level_note": "Trusted: Lean kernel (standard axioms), harness generator reach, JSON glue. Stated for evaluations without expression errors and non-binding limits (the property's quantifier). Open: attenuation_monotone as a single theorem over Model/Authorizer.authorize (composition of the proved lemmas).",
+        "level_text": "Lean 4 theorems: attenuation_monotone_partial - END TO END over the executable authorizer of the model (Model/Authorizer.authorize: world construction, the fixpoint run, authorizer checks, authority checks, policies, the other blocks' checks): if the token extended by a first-party block is authorized by policy i, the original token's run stays within its limits and no expression fails while the extended token's checks and policies are evaluated, then the original token is authorized by the same policy i; worlds_vis_same (what the original world shows to anyone who does not trust the new block is what the extended world shows them), old_rules_avoid (no rule, check or policy that existed before trusts the appended block). They rest on theorems over the inductive derivability relation of C05 (which the engine computes exactly, run_exact): derives_mono (a block never removes a fact), derives_restrict (every pair derivable with the new block whose origin avoids it was derivable without it: base facts of the block carry its id, its rules stamp its id, old rules cannot see it), visible_facts_unchanged (for every trusted set not containing the new block the visible world is identical), old_scopes_exclude_new (no scope of an earlier block or of the authorizer reaches a newly appended block unless it names a key registered for it; previous stops at the element's own block). Together with C04's check/policy theorems (verdicts are functions of the visible facts) this is the attenuation argument; the end-to-end corollary over the executable authorize is listed as an open obligation. Tie: every generated (token, appended block, authorizer) is authorized with and without the block on the implementation and on the compiled model, full outcomes compared; and an implementation-only oracle checks the property itself (accepted extended => accepted original by the same policy; failed checks only grow) on every case where nobody names the new block's key.",
+        "level_note": "Trusted: Lean kernel (standard axioms), harness generator reach, JSON glue. Stated for evaluations without expression errors and non-binding limits (the property's quantifier). The end-to-end theorem is named _partial because it excludes third-party blocks (which are visible, by design, to the scopes naming their key - old_scopes_exclude_new states the exact condition) and evaluations with expression errors (whose outcome depends on iteration order: C11).",
         "rule": "atten stream: seeded tokens of 1-3 blocks plus one appended first- or third-party block (facts/rules over the same predicates as the authority, scopes incl. previous, keys shared with earlier blocks), generated authorizers; both tokens authorized on both sides; non-trivial = both outcomes are decisions (ok/nomatch/unauth); distinct = distinct case JSON",
         "trusted_base": ["harness/src/prog.rs, s_atten.rs, s_authz.rs", "lean/Codec.lean, lean/Driver.lean", "tools/props.py oracle_atten (used only to search for a failing input)"],
         "assumptions": ["error-free programs under non-binding limits"],
-        "open_obligations": ["attenuation_monotone: authorize (blocks ++ [b]) az = ok i -> authorize blocks az = ok i, as one theorem over the executable model"],
+        "open_obligations": ["attenuation_monotone for third-party blocks not named by any earlier scope (the lemmas old_scopes_exclude_new / derives_restrict cover it; the end-to-end composition is stated for first-party blocks)"],
     },
     "C11": {
         "module": "BiscuitModel.Props.C11",
@@ -808,7 +808,9 @@ def _capi_op_diff(op, r):
     name = op["op"]
     c, m = r.get("c"), r.get("r")
     err, rerr = r.get("err"), r.get("rerr")
-    timeouts = "Timeout" in json.dumps(r)
+    # the authorizers of both sides run with the default 1 ms time budget: on a loaded machine either may stop
+    # with RunLimit(Timeout) ("Reached Datalog execution limits", error kind 27) independently of the other
+    timeouts = "execution limits" in json.dumps(r) or "Timeout" in json.dumps(r) or (isinstance(err, dict) and err.get("kind") == 27)
     if name in ("kp_new", "kp_public", "pk_deserialize", "bb_new", "blk_new", "azb_new", "bb_build", "tok_from", "tok_append", "azb_build", "tok_authorizer") or name.endswith("_add"):
         if m is None:
             # null handle or invalid argument on the C side only: must be an error, reported as InvalidArgument
